@@ -95,12 +95,34 @@ def check_rule_text(rec, where, desc, rule_text, case):
     tmpd = tempfile.mkdtemp(prefix='vt-c19-r-')
     try:
         pth = os.path.join(tmpd, 'merchants.rules')
+        # an older hand-written rule in the same file whose pattern differs from the suggested one only in the letter case of an escape
+        # (\\S for \\s, \\D for \\d ...): another pattern altogether; whatever it does, the suggested rule below it still matches its transaction
+        mm = re.search(r'match:\s*(.*)', text)
+        twin = mm.group(1) if mm else ''
+        for a_, b_ in (('\\\\s', '\\\\S'), ('\\\\d', '\\\\D'), ('\\\\b', '\\\\B'), ('\\\\w', '\\\\W')):
+            twin = twin.replace(a_, '\0').replace(b_, a_).replace('\0', b_)
+        older = ''
+        want_cat = None
+        if mm and twin != mm.group(1):
+            try:
+                import ast as _ast
+                call = _ast.parse(twin.strip(), mode='eval').body
+                if isinstance(call, _ast.Call) and getattr(call.func, 'id', '').lower() == 'regex' and len(call.args) == 1 and isinstance(call.args[0], _ast.Constant):
+                    want_cat = 'Older' if re.search(call.args[0].value, desc, re.I) else 'Cat'        # first matching rule, each pattern read as written
+                    older = '[Older Rule]\nmatch: %s\ncategory: Older\n\n' % twin
+                    rec.count('production_path_files_with_escape_case_twin')
+            except (SyntaxError, re.error):
+                pass
         with open(pth, 'w', encoding='utf-8') as f:
-            f.write(text + '\n')
+            f.write(older + text + '\n')
         mu.clear_engine_cache()
         rules = mu.get_all_rules(pth)
         m_, c_, s_, info = mu.normalize_merchant(desc, rules, amount=12.5, txn_date=None, field=None, data_source='S')
         rec.count('production_path_suggestion_checks')
+        if want_cat is not None and c_ != 'Unknown' and c_ != want_cat:
+            rec.violation('suggestion-or-older-rule-read-as-another-pattern', f'{where}: file with an older rule `{twin}` above the suggested rule: {desc!r} is classified {c_!r}, '
+                          f'the first rule whose pattern (as written) matches gives {want_cat!r}', case)
+            return False
         if c_ == 'Unknown':
             rec.violation('suggestion-does-not-match:production-path', f'{where}: with the suggested rule on disk, normalize_merchant still leaves {desc!r} Unknown '
                           f'(rule text {rule_text!r})', case)
@@ -133,10 +155,22 @@ def library_check(rec, desc):
     return ok
 
 
-def make_budget(tmp, k, descs, with_rules=''):
+def make_budget(tmp, k, descs, with_rules='', reader='format'):
     b = os.path.join(tmp, 'b%d' % k)
     os.makedirs(os.path.join(b, 'config'), exist_ok=True)
     os.makedirs(os.path.join(b, 'data'), exist_ok=True)
+    if reader == 'amex':
+        # the deprecated `type: amex` reader over a full card export: further columns word the merchant differently from Description
+        with open(os.path.join(b, 'data', 'a.csv'), 'w', newline='', encoding='utf-8') as f:
+            w = csv.writer(f)
+            w.writerow(['Date', 'Description', 'Card Member', 'Account #', 'Amount', 'Extended Details', 'Appears On Your Statement As', 'Address', 'Category'])
+            for i, d in enumerate(descs):
+                w.writerow(['01/%02d/2025' % (1 + i % 28), d, 'A MEMBER', '-12345', '%.2f' % (5 + i), 'DETAILS %d' % i, 'STMT LINE %d %s' % (i, d[::-1][:12]), 'NOWHERE', 'Misc'])
+        with open(os.path.join(b, 'config', 'merchants.rules'), 'w', encoding='utf-8') as f:
+            f.write('# rules\n' + with_rules)
+        with open(os.path.join(b, 'config', 'settings.yaml'), 'w') as f:
+            f.write('year: 2025\nmerchants_file: config/merchants.rules\ndata_sources:\n  - name: A\n    file: data/a.csv\n    type: amex\n')
+        return b
     with open(os.path.join(b, 'data', 'a.csv'), 'w', newline='', encoding='utf-8') as f:
         w = csv.writer(f)
         w.writerow(['Date', 'Description', 'Amount'])
@@ -169,8 +203,10 @@ def cli_loop(rec, rnd, tmp, k):
     # two descriptions that clean up to the same merchant NAME but need different patterns
     w1, w2 = rnd.choice(WORDS[:12]).upper(), rnd.choice(WORDS[:12]).upper()
     descs += ['%s #%d %s WA' % (w1, rnd.randint(100, 999), w2), '%s #%d %s WA' % (w1, rnd.randint(1000, 9999), w2)]
-    b = make_budget(tmp, k, descs)
-    case = {'kind': 'cli', 'descs': descs}
+    reader = 'amex' if rnd.random() < .25 and all(d == d.strip() and d for d in descs) else 'format'
+    rec.count('cli_loops_reader:' + reader)
+    b = make_budget(tmp, k, descs, reader=reader)
+    case = {'kind': 'cli', 'descs': descs, 'reader': reader}
     rec.case()
     rec.count('cli_loops')
     p = tally(b, 'discover', os.path.join(b, 'config'), '--format', 'json', '-n', '0')
